@@ -38,6 +38,13 @@ class SDecoded:
     def __repr__(self):
         return f"SDecoded({self.src_bytes!r})"
 
+    def sym_contains(self, needle):
+        """`needle in text` for an ASCII needle: ASCII bytes decode to themselves under utf-8 / latin-1 / surrogateescape
+        and no other byte sequence decodes to an ASCII character, so it is the content predicate of the bytes"""
+        if isinstance(needle, str) and needle.isascii() and needle:
+            return self.src_bytes.sym_contains(needle.encode("ascii"))
+        raise Unsupported(f"{needle!r} in decoded text")
+
     def concretize(self, m):
         from .core import concretize
 
